@@ -38,6 +38,7 @@ func init() {
 			{Name: "deep-walk-2e32-values", N: fw.Const(1, 2), Run: c07Deep},
 			{Name: "concurrent-short-histories", N: fw.Const(10000, 200000), Run: c07Short, Race: true, Serial: true},
 			{Name: "concurrent-long-histories", N: fw.Const(3, 100), Run: c07Long, Race: true, Serial: true},
+			{Name: "wrap-storms", N: fw.Const(8000, 120000), Run: c07Storm, Race: true, Serial: true},
 		},
 	})
 }
@@ -280,6 +281,24 @@ func c07RunHistory(r *fw.Rand, seq rtp.Sequencer, g, opsEach int, rollPct int, y
 	}
 	var start, done sync.WaitGroup
 	start.Add(1)
+	// background pollers (polling mode, rollPct < 0): goroutines that read the rollover count back to back and record nothing -
+	// they only keep whatever guards the count busy while the recorded clients cross the wrap
+	var stopPoll atomic.Bool
+	var pollers sync.WaitGroup
+	if rollPct < 0 {
+		rollPct = 30
+		for q := 0; q < 4; q++ {
+			pollers.Add(1)
+			go func() {
+				defer pollers.Done()
+				start.Wait()
+				for !stopPoll.Load() {
+					seq.RollOverCount()
+				}
+			}()
+		}
+	}
+	defer func() { stopPoll.Store(true); pollers.Wait() }()
 	for k := 0; k < g; k++ {
 		done.Add(1)
 		go func(k int) {
@@ -497,8 +516,17 @@ func c07Short(c *fw.Ctx, i int) {
 	g := r.Pick(2, 2, 3, 3, 4, 5, 8, 16)
 	opsEach := r.Range(6, 12)
 	procs := r.Pick(1, 2, 4, 16)
+	polling := i%8 == 3
+	if polling {
+		procs = 16 // tight pollers on few processors only wait for each other's time slices
+	}
 	old := runtime.GOMAXPROCS(procs)
 	defer runtime.GOMAXPROCS(old)
+	if polling {
+		// four unrecorded goroutines poll RollOverCount without pause while the recorded clients draw values across the wrap
+		g = r.Pick(2, 4, 4, 8)
+		opsEach = r.Range(8, 16)
+	}
 	total := g * opsEach
 	// place the wrap inside the history
 	k := r.Range(total/6, total*7/10) // the wrap falls where all clients are running, not in the ramp-up
@@ -516,7 +544,12 @@ func c07Short(c *fw.Ctx, i int) {
 		opsEach = r.Range(1, 4)
 		seq = rtp.NewRandomSequencer()
 	}
-	ops := c07RunHistory(r, seq, g, opsEach, 20, r.Pick(0, 20, 50))
+	rollPct := 20
+	if polling && !random {
+		rollPct = -1
+		c.Count("short_histories_with_polling_readers", 1)
+	}
+	ops := c07RunHistory(r, seq, g, opsEach, rollPct, r.Pick(0, 20, 50))
 	if random {
 		// the start value is whatever the smallest issued value is (no wrap can occur: the start is below 2^15, the history is short)
 		min, any := uint16(0), false
@@ -590,6 +623,67 @@ func c07Short(c *fw.Ctx, i int) {
 	if c.WantSample() {
 		c.Sample(map[string]any{"start": start, "goroutines": g, "ops_each": opsEach, "gomaxprocs": procs, "overlapping_ops": ov, "history_head": c07Dump(ops, 12)})
 	}
+}
+
+// c07Storm: the cheapest possible clients around one wrap, with an oracle that needs no global clock. Each worker draws a value and
+// then reads the rollover count; program order is real-time order, so a worker that was handed a value of the new cycle (the value 0
+// had been handed out before) must read a count of at least 1, and a count it read can never be followed by a smaller one; the count
+// never exceeds the number of wraps requested so far (1). Unrecorded pollers keep whatever guards the count busy.
+func c07Storm(c *fw.Ctx, i int) {
+	r := c.R
+	workers := r.Pick(2, 4, 4, 8)
+	readers := r.Pick(0, 2, 4, 4, 8)
+	calls := r.Pick(40, 100, 150)
+	ahead := r.Range(10, workers*calls*2/3)
+	seq := rtp.NewFixedSequencer(uint16(65536 - ahead))
+	old := runtime.GOMAXPROCS(r.Pick(2, 4, 16, 16))
+	defer runtime.GOMAXPROCS(old)
+	var stop atomic.Bool
+	var bad atomic.Value
+	var wg, rg sync.WaitGroup
+	for q := 0; q < readers; q++ {
+		rg.Add(1)
+		go func() {
+			defer rg.Done()
+			for !stop.Load() {
+				seq.RollOverCount()
+			}
+		}()
+	}
+	for w := 0; w < workers; w++ {
+		wg.Add(1)
+		go func() {
+			defer wg.Done()
+			var prev uint64
+			for k := 0; k < calls; k++ {
+				v := seq.NextSequenceNumber()
+				cnt := seq.RollOverCount()
+				switch {
+				case v < 1<<15 && cnt < 1:
+					bad.Store(fmt.Sprintf("a client was handed the value %d (the value 0 had been handed out before) and then read RollOverCount = %d", v, cnt))
+				case cnt < prev:
+					bad.Store(fmt.Sprintf("one client read RollOverCount = %d and later %d", prev, cnt))
+				case cnt > 1:
+					bad.Store(fmt.Sprintf("RollOverCount = %d although the value 0 was handed out once", cnt))
+				}
+				prev = cnt
+			}
+		}()
+	}
+	wg.Wait()
+	stop.Store(true)
+	rg.Wait()
+	c.Evals(2 * workers * calls)
+	c.Count("wrap_storms", 1)
+	if msg, ok := bad.Load().(string); ok {
+		c.Fail("C07/concurrent/rollover-count-behind-or-ahead-of-the-values-handed-out", msg, fw.W("workers", workers, "polling_readers", readers, "calls_each", calls, "values_before_the_wrap", ahead))
+		return
+	}
+	if final := seq.RollOverCount(); final != 1 {
+		c.Fail("C07/concurrent/rollover-count-behind-or-ahead-of-the-values-handed-out", fmt.Sprintf("after the storm RollOverCount = %d, the value 0 was handed out once", final), fw.W("workers", workers, "polling_readers", readers))
+		return
+	}
+	c.Shapef("storm|w%d|r%d", workers, readers)
 }
 
 func c07Long(c *fw.Ctx, i int) {
